@@ -74,8 +74,13 @@ func RunPckExtCase(cs map[string]any, id int, seed int64) Result {
 	}
 	alt.PCESvn = (v.PCESvn + 1 + int64(rng.Intn(60000))) % 65536
 
-	unknownElem := func() []byte { return gen.Seq(gen.OID(1, 2, 840, 113741, 1, 13, 1, 9+rng.Intn(20)), gen.Enum(rng.Intn(3))) }
-	unknownTcbElem := func() []byte { return gen.ElemInt(gen.TcbCompOID(19+rng.Intn(10)), int64(rng.Intn(256))) }
+	// "unknown OID": any last arc outside the defined ones, including the boundary arcs 0, 19, 127/128 and large ones
+	oddArcs := []int{0, 19, 20, 127, 128, 255, 256, 16383, 16384, 1 << 30}
+	unknownElem := func() []byte {
+		arcs := []int{0, 6, 7, 9, 127, 128, 1 << 20}
+		return gen.Seq(gen.OID(1, 2, 840, 113741, 1, 13, 1, arcs[rng.Intn(len(arcs))]), gen.Enum(rng.Intn(3)))
+	}
+	unknownTcbElem := func() []byte { return gen.ElemInt(gen.TcbCompOID(oddArcs[rng.Intn(len(oddArcs))]), int64(rng.Intn(256))) }
 
 	octetOID := map[string][]int{"ppid": gen.OidPPID, "pceid": gen.OidPCEID, "fmspc": gen.OidFMSPC}
 	octetVal := func(vals gen.SgxValues, k string) []byte {
